@@ -68,16 +68,16 @@
        amount over all A/L / all other accounts in some column, ascending; Delta lists the union of
        the two lists; the lines are block_ok with the numbers of C02_table_totals.
 
-   The CSV (Proofs/DecStringValue.v, BalanceCsv.v, BalanceCsvOrder.v), for -a:
+   The CSV (Proofs/DecStringValue.v, BalanceCsv.v, BalanceCsvOrder.v), with and without -a:
    C02_number_text   Decimal.String is a function of the value of the decimal.
    C02_table_row_order  the account rows are LedgerSpec.all_rows of the A/L entries, then of the others.
    C02_csv_records   the records of the CSV renderer on the table are the rows of ledger_csv.
    C02_csv_is_ledger_csv  balance_csv cfg ds = COk text -> text = the rows of ledger_csv, fields
        joined by commas, one record per line.
 
-   Not proved: the sibling order without -a, and encoding/csv quoting (not modelled: no field of a
-   balance report needs it).  ledger_csv is compared with the binary's CSV and the model's CSV on
-   every run. *)
+   Not proved: encoding/csv quoting (not modelled: no field of a balance report needs it), and the
+   text rendering of the same table (C17).  ledger_csv is compared with the binary's CSV and the
+   model's CSV on every run. *)
 From Coq Require Import ZArith List Bool.
 From Coq Require Import QArith.
 From Knut Require Import Model.Str Model.Dec Model.Date Model.Account Model.Ledger Model.Journal Model.Pipeline Model.Table Model.Report Model.Cli Spec.LedgerSpec
@@ -435,11 +435,13 @@ Theorem C02_number_text : forall a b, (dvalue a == dvalue b)%Q -> to_string a = 
 Proof. exact to_string_value. Qed.
 Print Assumptions C02_number_text.
 
-(* The sort order: with --sort-alphabetically the account rows of the table (depth first over the
-   sorted trees: top level by account type, below by segment) are LedgerSpec.all_rows of the A/L
-   entries followed by all_rows of the other entries (insertion by row_ltb). *)
+(* The sort order: the account rows of the table (depth first over the sorted trees: top level by
+   account type, below by segment) are LedgerSpec.all_rows of the A/L entries followed by all_rows
+   of the other entries (insertion by row_ltb) -- with --sort-alphabetically, and without it as
+   well: an unvalued report has no weights (node_weight false is zero everywhere), the stable sort
+   by weight moves nothing, and the children are kept in segment order. *)
 Theorem C02_table_row_order : forall cfg ds r part dl,
-  bc_valuation cfg = None -> bc_alpha cfg = true ->
+  bc_valuation cfg = None ->
   balance_report cfg ds = COk (r, part) ->
   parse_directives ds = MOk dl ->
   postings_syntactic dl ->
@@ -447,9 +449,9 @@ Theorem C02_table_row_order : forall cfg ds r part dl,
   map fst (account_rows (balance_render_cfg cfg) r) =
   all_rows (filter is_AL_entry es) ++ all_rows (filter (fun e => negb (is_AL_entry e)) es).
 Proof.
-  intros cfg ds r part dl Hv Ha Hrun Hp Hsyn es. unfold account_rows. rewrite map_map, map_app.
+  intros cfg ds r part dl Hv Hrun Hp Hsyn es. unfold account_rows. rewrite map_map, map_app.
   change (fun x : str * account * ramounts => fst (snd (fst x), snd x)) with l_path.
-  rewrite (tree_rows_order cfg ds r part dl Hv Ha Hrun Hp Hsyn true), (tree_rows_order cfg ds r part dl Hv Ha Hrun Hp Hsyn false).
+  rewrite (tree_rows_order cfg ds r part dl Hv Hrun Hp Hsyn true), (tree_rows_order cfg ds r part dl Hv Hrun Hp Hsyn false).
   reflexivity.
 Qed.
 Print Assumptions C02_table_row_order.
@@ -458,7 +460,7 @@ Print Assumptions C02_table_row_order.
    same records in the same order, every field the same bytes (header, account names, commodities,
    numbers; blank and separator rows are skipped as in C17_csv_rows). *)
 Theorem C02_csv_records : forall cfg ds r part dl,
-  bc_valuation cfg = None -> bc_alpha cfg = true ->
+  bc_valuation cfg = None ->
   balance_report cfg ds = COk (r, part) ->
   parse_directives ds = MOk dl ->
   postings_syntactic dl ->
@@ -470,10 +472,11 @@ Print Assumptions C02_csv_records.
 (* The printed text.  balance_csv = balance_report ; render_report ; render_csv (Model/Cli.v);
    the text is the ledger's rows, fields joined by commas, one record per line.  (encoding/csv
    quoting is outside the model, see Table.v: no field of a balance report needs it.)
-   Hypotheses: no valuation (ledger_csv is the unvalued report), -a (the order all_rows states),
-   postings_syntactic (accounts as the parser produces them, see C02_cells). *)
+   Hypotheses: no valuation (ledger_csv is the unvalued report; it is None otherwise) and
+   postings_syntactic (accounts as the parser produces them, see C02_cells).  Every window,
+   interval, --last, --diff, --close, filter, mapping, remap, with and without -a. *)
 Theorem C02_csv_is_ledger_csv : forall cfg ds text,
-  bc_valuation cfg = None -> bc_alpha cfg = true ->
+  bc_valuation cfg = None ->
   balance_csv cfg ds = COk text ->
   exists dl,
     parse_directives ds = MOk dl /\
@@ -576,7 +579,9 @@ Example C02_csv_example :
     match ledger_csv cfg dl with
     | Some rows => length rows = 12%nat /\ text = concat (map (fun rec => join [44] rec ++ [10]) rows)
     | None => False
-    end
+    end /\
+    (* without -a: the same text *)
+    balance_csv (mkBalanceCfg 0 (d0 + 90) Monthly 0 false true None false [] [] [] [] [] true) ds = COk text
   | _, _, _ => False
   end.
 Proof. vm_compute. repeat split. Qed.
